@@ -23,6 +23,8 @@ A(f, v, u) == [f |-> f, v |-> v, u |-> u]
 ArgsValues == {A("fn_list", "e", "all"), A("fn_list", "one", "all"), A("fn_list", "multi", "all"), A("fn_gen", "e", "all"), A("fn_gen", "multi", "all"),
                A("fn_iter", "two", "all"), A("fn_term", "multi", "all"), A("val_list", "two", "all"), A("val_gen", "multi", "all"), A("val_str", "one", "all"),
                A("fn_raise", "one", "all"), A("fn_raiseK", "one", "all"), A("gen_raise", "multi", "all"), A("valgen_raise", "two", "all")}
+ArgsValuesD == {A("fn_list", "e", "all"), A("fn_list", "multi", "all"), A("fn_gen", "multi", "all"), A("fn_term", "multi", "all"), A("val_gen", "two", "all"), A("val_str", "one", "all"),
+               A("fn_raiseK", "one", "all"), A("valgen_raise", "two", "all")}
 ArgsFew    == {A("fn_list", "one", "all"), A("fn_gen", "multi", "all"), A("val_list", "e", "all"), A("fn_raise", "one", "all"), A("gen_raise", "multi", "all")}
 (* what the caller does with the context manager *)
 ArgsUses   == {A("fn_list", "one", "all"), A("fn_gen", "multi", "part"), A("fn_list", "two", "braise"), A("fn_list", "multi", "hold"), A("val_gen", "two", "hold"),
